@@ -10,7 +10,8 @@
 
 
 def add_or_remove_notifiers(
-        *, object, graph, handler, target, dispatcher, remove):
+        *, object, graph, handler, target, dispatcher, remove,
+        _processed=None):
     """ Add/Remove notifiers on objects following the description on an
     ObserverGraph.
 
@@ -50,6 +51,7 @@ def add_or_remove_notifiers(
         target=target,
         dispatcher=dispatcher,
         remove=remove,
+        processed=_processed,
     )
     callable_()
 
@@ -60,16 +62,19 @@ class _AddOrRemoveNotifier:
     See ``add_or_remove_notifiers`` for the input parameters.
     """
 
-    def __init__(self, *, object, graph, handler, target, dispatcher, remove):
+    def __init__(self, *, object, graph, handler, target, dispatcher, remove,
+                 processed=None):
         self.object = object
         self.graph = graph
         self.handler = handler
         self.target = target
         self.dispatcher = dispatcher
         self.remove = remove
-
-        # list of (notifier, observable)
-        self._processed = []
+        # Nested calls (children and extra graphs) share the undo log of the
+        # outermost call, so that a failure anywhere in the graph walk undoes
+        # everything done so far, not just the current level.
+        self._is_outermost = processed is None
+        self._processed = [] if processed is None else processed
 
     def __call__(self):
         """ Main function for adding/removing notifiers.
@@ -88,6 +93,12 @@ class _AddOrRemoveNotifier:
         # root to leaves.
         if self.remove:
             steps = steps[::-1]
+
+        if not self._is_outermost:
+            # The outermost call is responsible for undoing on failure.
+            for step in steps:
+                step()
+            return
 
         try:
             for step in steps:
@@ -116,6 +127,7 @@ class _AddOrRemoveNotifier:
                 target=self.target,
                 dispatcher=self.dispatcher,
                 remove=self.remove,
+                _processed=self._processed,
             )
 
     def _add_or_remove_children_notifiers(self):
@@ -130,6 +142,7 @@ class _AddOrRemoveNotifier:
                     target=self.target,
                     dispatcher=self.dispatcher,
                     remove=self.remove,
+                    _processed=self._processed,
                 )
 
     def _add_or_remove_maintainers(self):
